@@ -92,8 +92,11 @@ class C10(InterpProp):
         # (sometimes all the interpreters of the client, the one of the property statechart included, are given the same
         #  configuration mapping as initial context)
         ctx0 = [['w', 0]] if rnd.random() < 0.15 else []
+        # (... and one of the two attachments may be taken back at once: it is then attached once)
+        once_more = twice and rnd.random() < 0.4
         ops = [['create', 0, ign, ctx0, 0], ['create', 0, ign, ctx0, 0],
-               ['attach', 0, 0]] + ([['attach', 0, 0]] if twice else []) + [['bindprop', 0, 1], ['attach', 0, 1]]
+               ['attach', 0, 0]] + ([['attach', 0, 0]] if twice else []) + ([['detach', 0, 0]] if once_more else []) + \
+              [['bindprop', 0, 1], ['attach', 0, 1]]
         for op in ops1:
             ops.append(op)
             op2 = list(op)
@@ -113,7 +116,7 @@ class C10(InterpProp):
     def shrink_candidates(self, case):
         p = case.payload
         ops = p['ops']
-        n0 = 6 if ops[3][0] == 'attach' else 5
+        n0 = ops.index(['attach', 0, 1]) + 1
         for i in range(len(ops) - 2, n0 - 1, -2):
             q = copy.deepcopy(p)
             del q['ops'][i:i + 2]
@@ -129,8 +132,8 @@ class C10(InterpProp):
         fired = False
         rec = [[], []]
         clean = True
-        twice = ops[3][0] == 'attach'
-        n0 = 6 if twice else 5
+        twice = ops[3][0] == 'attach' and ops[4][0] != 'detach'
+        n0 = ops.index(['attach', 0, 1]) + 1
         dup = (lambda ms: [m for m in ms for _ in (0, 1)]) if twice else (lambda ms: list(ms))
         for i in range(n0, len(ops) - 1, 2):
             a, b = obs['obs'][i], obs['obs'][i + 1]
